@@ -502,6 +502,9 @@ def run_scenario(sc, hooks=None, world=None, crash_after_write=None):
                   "commit": lambda: do_commit("outside")}.get(a[1])
             if a[1] == "restart":
                 fn = (lambda how=a[2]: do_restart(how))
+            if a[1] == "commit_if_running":
+                # an application that keeps asking for commits, but only of a consumer it has not stopped
+                fn = (lambda: do_commit("outside") if tr.consumer._start_d is not None and not tr.stops else None)
             if fn is not None:
                 w.clock.labelled(base - w.clock.seconds() + a[0], "call." + a[1], guard(fn, tr))
         mark = [len(log)]
